@@ -135,6 +135,10 @@ class XPathArray(XPathFunction):
         except IndexError:
             raise self.error('FOAY0001')
 
+    @property
+    def arity(self) -> int:
+        return 1  # a map or an array is a function of one argument
+
     def items(self, context: ta.ContextType = None) -> list[ta.ValueType]:
         if self._array is not None:
             return self._array
